@@ -53,6 +53,17 @@ def base_valid(spec, base_events):
     return c09.oracle(len(ids), edges, init, fin, False)[0] == "ok"
 
 
+def base_valid_ts(spec, ts):
+    ids = [s["id"] for s in spec["states"]]
+    idx = {s: i for i, s in enumerate(ids)}
+    if not ts:
+        return False
+    edges = [(idx[t["src"]], idx[t["dst"]], t["internal"]) for t in ts]
+    init = {idx[s["id"]] for s in spec["states"] if s["initial"]}
+    fin = {idx[s["id"]] for s in spec["states"] if s["final"]}
+    return c09.oracle(len(ids), edges, init, fin, False)[0] == "ok"
+
+
 def plan_style(rng, spec, force=None):
     st = {}
     explicit = [t for t in spec["transitions"] if t.get("from_any") is None]
@@ -98,25 +109,33 @@ def plan_style(rng, spec, force=None):
     for e, s_ in list(st["events"].items()):
         if s_.startswith("kw_") and not any(e in t["events"] for t in explicit):
             st["events"][e] = "attr"
-    if (st["states"] == "attrs" and not has_func and rng.random() < 0.35 and len(spec["events"]) >= 2
+    has_event_deco = any(cb["kind"] == "deco" and cb["deco"]["target"] == "event" for cb in spec["cbs"].values())
+    if (st["states"] == "attrs" and not has_func and not has_event_deco and rng.random() < 0.45 and len(explicit) >= 2
             and not any(v == "decorator" for v in st["events"].values())):
-        k = rng.randint(1, len(spec["events"]) - 1)
-        base_events = spec["events"][:k]
-        # base transitions must precede the others in declaration order and no decorator may target base events
-        base_ts = [t for t in explicit if all(e in base_events for e in t["events"])]
-        order_ok = explicit[: len(base_ts)] == base_ts
-        deco_on_base = any(cb["kind"] == "deco" and cb["deco"]["target"] == "event" and cb["deco"]["event"] in base_events
-                           for cb in spec["cbs"].values())
-        any_on_base = any(d["event"] in base_events for d in spec.get("any_decls", []))
-        mixed = any(any(e in base_events for e in t["events"]) and not all(e in base_events for e in t["events"]) for t in explicit)
-        if order_ok and not deco_on_base and not any_on_base and not mixed and base_valid(spec, base_events):
-            st["base_events"] = base_events
-            for e in spec["events"]:
-                if st["events"][e] == "kw_obj":
-                    st["events"][e] = "kw_str"
-            for e in base_events:
-                if st["events"][e].startswith("kw_"):
-                    st["events"][e] = "attr"
+        # base class = the first k transitions (all states); the subclass adds the rest: new events and
+        # further transitions for inherited events
+        for _try in range(4):
+            k = rng.randint(1, len(explicit) - 1)
+            base_events = [e for e in spec["events"] if any(e in t["events"] for t in explicit[:k])]
+            any_on_base_only = any(d["event"] in base_events and not any(d["event"] in t["events"] for t in explicit[k:])
+                                   for d in spec.get("any_decls", []))
+            if base_valid_ts(spec, explicit[:k]):
+                st["base_split"] = k
+                for e in spec["events"]:
+                    if st["events"][e] in ("kw_obj",):
+                        st["events"][e] = "kw_str"
+                    # a keyword-declared event that spans base and subclass is fine; nothing to adjust
+                break
+    # events declared partly by keyword and partly through the attribute
+    for e in spec["events"]:
+        holders = [t for t in explicit if e in t["events"]]
+        if st["events"][e] in ("attr", "attr_right") and len(holders) >= 2 and e not in deco_targets and rng.random() < 0.25:
+            k = st.get("base_split")
+            if k and holders[0] in explicit[:k] and not any(h in explicit[:k] for h in holders[1:]):
+                continue   # the attribute line would live in the subclass only: covered by the inheritance case
+            if k and not (all(h in explicit[:k] for h in holders) or all(h in explicit[k:] for h in holders)):
+                continue
+            st["events"][e] = "split"
     return st
 
 
@@ -232,7 +251,7 @@ def run_case(case, counters, violations, sigs, samples):
             return "canonical"
         return json.dumps({"states": style.get("states"), "t": sorted(set(style.get("tstyle", {}).values())),
                            "group": style.get("group"), "any": style.get("any"),
-                           "ev": sorted(set(style.get("events", {}).values())), "inherit": bool(style.get("base_events"))}, sort_keys=True)
+                           "ev": sorted(set(style.get("events", {}).values())), "inherit": bool(style.get("base_split"))}, sort_keys=True)
 
     def conforms(r):
         return all(rej is None for rej, _l, _c in r["hist"]) and not any(getattr(c, "softs", []) for _r, _l, c in r["hist"]) \
@@ -265,7 +284,7 @@ def run_case(case, counters, violations, sigs, samples):
                 tags.append("canonical")
                 if spec.get("any_decls") and b_.get("any") == "explicit":
                     tags.append("from_any")
-            if s_.get("base_events"):
+            if s_.get("base_split"):
                 tags.append("inheritance")
             if s_.get("states", "attrs") != "attrs":
                 tags.append("states-" + s_["states"])
@@ -297,7 +316,7 @@ def run_case(case, counters, violations, sigs, samples):
                                "detail": softs[0][1][:600], "witness": wit})
             continue
         sigs.add(F.h((sk, feats)))
-        if len(samples) < 2 and (r["style"] or {}).get("base_events"):
+        if len(samples) < 2 and (r["style"] or {}).get("base_split"):
             samples.append({"canonical_source": base["source"][:1800], "styled_source": r["source"][:1800], "style": r["style"]})
 
 
